@@ -277,6 +277,9 @@ class CoreEnforcer:
         self.model.clear_policy()
         try:
             self.adapter.load_filtered_policy(self.model, filter)
+
+            # as in load_policy: a subject-priority model consults a subject's rules before its roles' rules
+            self.model.sort_policies_by_subject_hierarchy()
         except Exception:
             for ast, policy in saved:
                 ast.policy = policy
